@@ -2,6 +2,7 @@
    and the executable form of C07 on the implementation's output (AxCut linear machine vs. the
    emitted code run on the ISA model Sem/A64Sem.v). *)
 From Coq Require Import List ZArith NArith String Bool.
+From SCC Require Model.LinCheck.
 From SCC Require Import Sem.LabelText.
 From SCC Require Import Base.Sexp Lang.AxSyn Sem.AxSem Sem.A64Sem Model.Backend Model.A64 Model.A64Io Model.RunBase.
 Import ListNotations.
@@ -80,6 +81,7 @@ Definition a64_inner : nat := 2000.
 (* executable form of C07 on the implementation's output: the AxCut linear machine against the
    emitted code run on the ISA model, for every argument tuple on which the source run is defined. *)
 Definition sem_check_a64 (p : prog) (cs : list acode) (argss : list (list Z)) : option string :=
+  if negb (LinCheck.lin_check_prog p) then None else
   fold_left (fun acc args =>
     match acc with
     | Some _ => acc
